@@ -511,4 +511,11 @@ func vStackingOrderLong() (n int, fails []string) {
 //@   call NewStackingContextFromBox#3 assert[otherwise-not-a-real-context] !real
 //@   call NewStackingContextFromBox#4 assert[inline-block-in-place] !real && style.GetPosition().String == "static" && arg0 == box && arg2 == childContexts
 //@   call dispatchChildren#1 assert[plain-box] !real && style.GetPosition().String == "static" && arg0 == box
+// a plain block-level box is recorded in both lists, a table cell in blocksAndCells only, each at the position its
+// OWN list had before the descendants were visited (tree order: a box precedes its descendants in each list)
+//@   assert after blocksIndex#1: *blocksIndex == len(blocks)
+//@   assert after blocksAndCellsIndex#1: *blocksAndCellsIndex == len(blocksAndCells)
+//@   assert after blocksAndCellsIndex#2: *blocksAndCellsIndex == len(blocksAndCells)
+//@   call insertBox#1 assert[block-in-tree-order] arg1 == *blocksIndex
+//@   call insertBox#2 assert[block-or-cell-in-tree-order] arg1 == *blocksAndCellsIndex
 //@   call NewStackingContextFromBox#3 assert[float] arg0 == box && arg2 == childContexts && style.GetPosition().String == "static" && callresult(IsFloated, 1)
